@@ -603,6 +603,12 @@ func (ctx *Context) evaluate() {
 				return
 			}
 
+			// 两端相距超出整数范围时，下面的减法会回绕
+			if (_b >= _a && (_b-_a < 0 || _b-_a == math.MaxInt)) || (_b < _a && (_a-_b < 0 || _a-_b == math.MaxInt)) {
+				ctx.Error = errors.New("不能一次性创建过长的数组")
+				return
+			}
+
 			step := IntType(1)
 			length := _b - _a
 			if length < 0 {
